@@ -535,6 +535,17 @@ theorem extraOk_single (id : UInt16) (payload : Bytes) (h1 : id ≠ 1) (h2 : id 
 
 /-! ### `new_append` lands in the writer invariant's base shape -/
 
+/-- A name that decodes to itself is written back with its own length: an `AppendClean` entry that `Fits`
+is never refused by the A6 check of `new_append`. -/
+theorem appendNameFits_of_clean (e : Entry) (hf : e.Fits) (hc : AppendClean e) : AppendNameFits e := by
+  unfold AppendNameFits
+  rw [hc.1]
+  exact hf.1
+
+theorem appendNamesFit_of_clean (l : Layout) (hF : l.Fits) (hall : ∀ e ∈ l.entries, AppendClean e) :
+    ∀ e ∈ l.entries, AppendNameFits e :=
+  fun e he => appendNameFits_of_clean e (hF.1 e he) (hall e he)
+
 /-- **`append_open_is_base_state`** — shape (A) of the writer invariant after `new_append` on a layout all
 of whose entries are `AppendClean`: the live part of the sink (everything in front of the position) is
 the local part of the prefix-less layout `appendNormAll l` followed by the dead bytes `appendGap l`, the
@@ -549,7 +560,8 @@ theorem append_open_is_base_state (l : Layout) (hF : l.Fits) (hR : l.Readable) (
       s.files = (viewOf l).map appendRecord ∧ s.comment = l.comment ∧
       s.inner = .storer none ∧ s.writingToFile = false ∧ s.writingToExtraField = false ∧
       s.centralOnly = false ∧ (s.files = [] ∨ s.writingRaw = true) := by
-  obtain ⟨d, h1, h2, h3⟩ := newAppend_on_layout l hF hR hS ht
+  obtain ⟨d, h1, h2, h3⟩ := newAppend_on_layout l hF
+    (appendNamesFit_of_clean l hF (fun e he => (hall e he).1)) hR hS ht
   refine ⟨appendStateOf l, d, h1, h2, h3, ?_, viewOf_closedAll l hall, rfl, rfl, rfl, rfl, rfl, rfl,
     Or.inr rfl⟩
   rw [h2, h3, take_cdStart, appendNormAll_bytes l (fun e he => (hall e he).1)]
